@@ -93,6 +93,8 @@ class Trace:
         self.chunk_results = []
         self.ctx = {"lp": 2}
         self.last_ep = None
+        self.disagreements_by_index = {}
+        self.ret_div = {}        # endpoint -> index of the first completed/interrupted disagreement on it
 
     def send(self, line, model_line=None):
         i, m = self.pair.op(line, model_line)
@@ -129,9 +131,17 @@ class Trace:
                     ri, rm = canon.parse_R(i), canon.parse_R(m)
                     rec = dict(index=idx, kind="call", ep=ep, fields=f, impl_msg=ri.get("msg", ""),
                                model_msg=rm.get("msg", ""))
+                    if "ret" in f or "draws" in f:
+                        self.ret_div.setdefault(ep, idx)
+                    elif "st" in f and ep in self.ret_div:
+                        # the two sides already disagreed on whether this multi-call step had completed
+                        # (or on its draws): a later accept/reject difference on the same endpoint is a
+                        # consequence of that, and belongs to the properties the first one belongs to
+                        rec["root"] = dict(self.disagreements_by_index[self.ret_div[ep]])
                     if "st" in f:
                         self.diverged = True
             if rec:
+                self.disagreements_by_index[idx] = rec
                 self.disagreements.append(rec)
         if is_call and i.startswith("R ok") and not c["probe"]:
             self.last_ep = ep
